@@ -62,4 +62,6 @@ if __name__ == "__main__":
     sys.stdout.flush()
     rc = main()
     sys.stdout.flush()
+    if os.environ.get("COVERAGE_CORE"):      # tools/covcheck.sh: let coverage write its data file
+        sys.exit(rc)
     os._exit(rc)
